@@ -9,7 +9,7 @@ GEN = ["Handlers", "Wrappers"]
 VO = ["Properties/C09.vo", "Extract/D_Client.vo"]
 MODULE = "Properties.C09"
 THEOREMS = ["c09_used_zero", "c09_used_zero_src", "c09_failed_discarded", "c09_checkout", "c09_never_exhausted", "c09_release", "c09_reuse", "c09_failed_retired",
-            "c09_never_again"]
+            "c09_never_again", "c09_idle_chronological", "c09_initially_chronological", "c09_no_stale_idle"]
 DRIVER = "D_Client"
 TECHNIQUE = ("Coq proof about a hand-written Gallina model of ObjectPool (sequential) and the PooledClient wrappers over the "
              "Client model: pool invariant after every call, failed clients discarded and never handed out again along any history, "
